@@ -122,7 +122,7 @@ def load_known():
 
 
 def write_replay(pid, seed, n, obj):
-    d = os.path.join(ROOT, 'replays')
+    d = os.environ.get('VERIF_REPLAY_DIR') or os.path.join(ROOT, 'replays')
     os.makedirs(d, exist_ok=True)
     path = os.path.join(d, f'{pid}-seed{seed}-{n}.json')
     json.dump(obj, open(path, 'w'), indent=1, default=str)
